@@ -21,6 +21,12 @@ E3  ... and the recorded trace (action, thread, returned values, every field of 
     invariants on.
 E4  seeded random and PCT controlled schedules of random programs (minBuffSize 1..4, initial sizes,
     1-2 growers, 1-2 growth phases, random sequential tails of copy/move/assign/swap/del/getters).
+E5  free-running rounds (drv_arena --stress): 2-4 real threads call grow_by truly concurrently on a
+    fresh arena (no controller, inert hook points, buffer sizes 1/2/4, initial sizes 0..3, random
+    deltas 0..6); one observation record per round (returned indices and size() in per-thread program
+    order, final size / capacity / buffer count / buffer sizes / contents, construction counts,
+    reference checks), validated by TLC against spec/arena/ArenaObs.tla: the windows INSIDE a step of
+    Arena.tla (the resizeMutex_ section, the compare-exchange) that the controlled engines cannot open.
 Auxiliary monitor (thorough): the same driver under ASan/UBSan/LSan.
 """
 import os
@@ -112,6 +118,17 @@ def run(ctx):
         ctx.validate(SPEC, 'ArenaTrace.tla', 'ArenaTrace.cfg', allt, WHAT,
                      executions=sum(t[1] for t in traces), label='cover replay + random + PCT')
 
+    # E5: free-running rounds (real threads, inert hooks): races inside one step of Arena.tla --------------
+    obs = os.path.join(ctx.work, 'stress.ndjson')
+    rounds = 40000 if thorough else 2500
+    tot, _ = ctx.driver(exe, ['--out', obs, '--stress', rounds, '--seed', ctx.seed], WHAT,
+                        label='free-running grow_by rounds, buffer sizes 1 2 4', allow_incomplete=True, timeout=1500)
+    if tot.get('executions'):
+        ctx.validate(SPEC, 'ArenaObs.tla', 'ArenaObs.cfg', obs, WHAT, executions=tot.get('completed', 0),
+                     label='free-running rounds: disjoint ranges covering [0, size), constructed once, stable references',
+                     timeout=3000)
+    ctx.cov['free_running_rounds'] = tot.get('completed', 0)
+
     if thorough:
         # auxiliary monitor: ASan/UBSan/LSan report = driver crash / exit 66 = reported
         sexe = ctx.build('drv_arena', SRCS, libs=LIBS, sanitize=True)
@@ -121,6 +138,10 @@ def run(ctx):
         ctx.driver(sexe, ['--out', tr, '--prog', COVER_PROG, '--schedules', sched], WHAT, label='sanitised cover replay')
 
     ctx.assumptions += [
+        'free-running rounds (E5): per round only what the public API returns is observed (grow_by results and size() '
+        'in per-thread program order; after the join size, capacity, numBuffers, getBufferSize, contents, construction '
+        'counts kept by the element type, references re-checked through operator[] / getBuffer); no cross-thread order '
+        'is recorded; a round that does not finish within 10 s of wall-clock time counts as a hang',
         'TLA+ interleaving semantics are sequentially consistent (weak-memory effects are C10)',
         'the resizeMutex_ critical section is atomic (no schedule point while the mutex is held); the plain reads of '
         'buffersPos_ by numBuffers() racing with that section are outside the model',
